@@ -15,7 +15,7 @@ import (
 func VH_C11_CabDigest() {
 	var n int
 	if vhTier() > 0 {
-		n = vhInt("len", 0, 76)
+		n = vhConcretize(vhInt("len", 0, 76), 80)
 	} else {
 		// quick: lengths on both sides of every fixed-size structure boundary
 		lens := []int{0, 35, 36, 39, 40, 59, 60, 62, 68, 70}
